@@ -386,7 +386,8 @@ def tasks(tier, seed):
     for rule, m, opts in zero_rules[:2]:
         params = {"rule": rule, "m": m, "opts": opts, "family": F.fam("A"), "cands": C.K3, "nmax": 6}
         out.append({"kind": "call", "module": "props.c08", "func": "run_seed_compare", "harness": "c08.seedcmp", "seeds": seeds,
-                    "params": {"seeds": seeds[:2], "inner": params, **params}, "sig_keys": ["rule"], "name": f"hash seeds {seeds} {rule} m={m} ['A']", "weight": 8})
+                    "params": {"seeds": seeds[:2], "inner": params, **params}, "sig_keys": ["rule"], "name": f"hash seeds {seeds} {rule} m={m} ['A']", "weight": 8,
+                    "no_assert_ok": True})  # on the unchanged code every path of this family records a random tiebreak (excused)
     out.append(t("STV", 1, o(True), F.fam("A>B", "B>C", "C"), "reverse", canary="compare-with-different-seats", stop_on_violation=True, name="canary:compare-with-different-seats", xval_stride=0))
     return out
 
